@@ -5,6 +5,7 @@ import (
 	"os"
 	"path/filepath"
 	"reflect"
+	"strings"
 	"testing"
 	"time"
 
@@ -100,14 +101,34 @@ func c08Check(p *projgen.Project, rec *ev.Recorder) []harness.Viol {
 		rec.Inconclusive(err.Error())
 		return viols
 	}
+	// In every other project the output path already holds an older, much longer document (a regeneration after the
+	// API shrank): what the command leaves there must still be exactly the new document.
+	specPath := filepath.Join(dir, p.Config.SpecOut)
+	stale := ev.Hash(projectCanon(p))%2 == 0
+	staleDoc := []byte(`{"openapi":"3.0.0","x-stale":"` + strings.Repeat("older document ", 20000) + `"}`)
+	if stale {
+		_ = os.MkdirAll(filepath.Dir(specPath), 0o755)
+		if err := os.WriteFile(specPath, staleDoc, 0o644); err != nil {
+			rec.Inconclusive(err.Error())
+			return viols
+		}
+		rec.Label("cli-run-over-existing-longer-file", 1)
+	}
 	cli := lab.RunCLI(bin, dir, 120*time.Second, nil, "generate", "spec", "-c", "./gleece.config.json")
 	if cli.TimedOut {
 		rec.Inconclusive("CLI run exceeded the harness time limit")
 		return viols
 	}
-	specPath := filepath.Join(dir, p.Config.SpecOut)
 	b, statErr := os.ReadFile(specPath)
 	switch {
+	case cli.Exit != 0 && stale:
+		// the older document may stay or go; a half-written mixture may not
+		if statErr == nil && string(b) != string(staleDoc) {
+			if _, perr := parseSpec(b); perr != nil {
+				add("failed-command-left-malformed-file", "`gleece generate spec` exited %d and left %d bytes at %s that are neither the previous document nor JSON", cli.Exit, len(b), p.Config.SpecOut)
+			}
+		}
+		rec.Label("cli-rejected", 1)
 	case cli.Exit != 0 && statErr == nil:
 		add("failed-command-wrote-spec", "`gleece generate spec` exited %d but %s exists (%d bytes)", cli.Exit, p.Config.SpecOut, len(b))
 	case cli.Exit == 0 && statErr != nil:
